@@ -142,3 +142,34 @@ func (c *Ctx) writerOrigin(v ssa.Value) ssa.Value {
 	}
 	return v
 }
+
+// writerMayBe: target is one of the writers v can stand for (a writer chosen
+// by a condition is a phi, or a local assigned in several places).
+func (c *Ctx) writerMayBe(v ssa.Value, target ssa.Value, depth int) bool {
+	if depth > 6 {
+		return false
+	}
+	o := c.writerOrigin(v)
+	if o == target {
+		return true
+	}
+	switch x := o.(type) {
+	case *ssa.Phi:
+		for _, e := range x.Edges {
+			if c.writerMayBe(e, target, depth+1) {
+				return true
+			}
+		}
+	case *ssa.UnOp:
+		if x.Op == token.MUL {
+			if cell := c.cellOf(x.X); cell != nil {
+				for _, st := range c.cellStores(cell) {
+					if c.writerMayBe(st.Val, target, depth+1) {
+						return true
+					}
+				}
+			}
+		}
+	}
+	return false
+}
